@@ -173,7 +173,7 @@ def prepare_haplotag_information(
     # maps read name to (haplotype, quality, phaseset)
     read_to_haplotype = {}
 
-    for sample in shared_samples:
+    for sample in sorted(shared_samples):
         variantpos_to_phaseinfo, variants = get_variant_information(variant_table, sample)
         read_set, _ = phased_input_reader.read(
             variant_table.chromosome, variants, sample, regions=regions
